@@ -24,9 +24,11 @@ def build_frame(kind, direction, ssn, rsn):
         return frames.DisconnectFrame(dst, src)
     if kind == "rr":
         return frames.ReceiveReadyFrame(dst, src, receive_sequence_number=rsn)
-    if kind in ("i", "i0", "iseg"):
-        # "i0": poll/final bit clear; "iseg": a segment (segmented bit set) - information frames all the same
-        return frames.InformationFrame(dst, src, b"\xe6\xe7\x00\x01\x02", send_sequence_number=ssn,
+    if kind in ("i", "i0", "iseg") or kind.startswith("ilen"):
+        # "i0": poll/final bit clear; "iseg": a segment (segmented bit set); "ilen<n>": an information field of n bytes (0, more
+        # than the default maximum of 128, the longest a frame can hold) - information frames all the same
+        payload = b"\xe6\xe7\x00\x01\x02" if not kind.startswith("ilen") else bytes((i * 5 + 1) % 256 for i in range(int(kind[4:])))
+        return frames.InformationFrame(dst, src, payload, send_sequence_number=ssn,
                                        receive_sequence_number=rsn, final=(kind != "i0"), segmented=(kind == "iseg"))
     if kind in ("rnr", "rej", "srej"):
         # the other supervisory frames of HDLC (receive-not-ready, reject, selective reject): no class in the library; built by
@@ -63,7 +65,8 @@ class RawFrame:
 # unnumbered control bytes (low bits 11) other than SNRM 83/93, DISC 43/53, UA 63/73, UI 03/13
 OTHER_UNNUMBERED = ["un%02x" % c for c in range(256) if c & 3 == 3 and c & 0xEF not in (0x83, 0x43, 0x63, 0x03)]
 OTHER_UNNUMBERED += [k.replace("un", "uh") for k in OTHER_UNNUMBERED]
-LINE_KIND = {"i0": "i", "iseg": "i", "rnr": "ui", "rej": "ui", "srej": "ui", **{k: "ui" for k in OTHER_UNNUMBERED}}
+I_LENGTHS = ["ilen0", "ilen1", "ilen128", "ilen129", "ilen500", "ilen2030"]
+LINE_KIND = {**{k: "i" for k in ["ilen0", "ilen1", "ilen128", "ilen129", "ilen500", "ilen2030"]}, "i0": "i", "iseg": "i", "rnr": "ui", "rej": "ui", "srej": "ui", **{k: "ui" for k in OTHER_UNNUMBERED}}
 
 
 def run_history(ops):
@@ -188,7 +191,7 @@ class C11(fw.Prop):
                             probes.append((d, k, 0, nr if k == "rr" else 0))
                     # information frames with the poll/final bit clear or the segmented bit set carry numbers like any other;
                     # RR with every receive number (it acknowledges, it does not renumber); RNR / REJ / SREJ are not RR
-                    for k in ("i0", "iseg"):
+                    for k in ["i0", "iseg"] + I_LENGTHS:
                         for s, r in [(ns, nr), (nr, ns)]:
                             probes.append((d, k, s, r))
                     if d == "r":
